@@ -126,6 +126,7 @@ class Built:
 
   # plug classes are created per case (fresh class objects)
   def plug_class(self, idx):
+    idx = plug_index(idx)
     if idx not in self.plug_classes:
       H = htf()
       fault = (self.cfg.get('plugs') or {}).get(str(idx))
@@ -140,9 +141,20 @@ class Built:
             raise RuntimeError('plug %d ctor boom' % idx)
 
         def tearDown(self):
+          t0 = time.monotonic()
           log.add('plug_td', idx, id(self))
           if fault == 'td_raise':
             raise RuntimeError('plug %d tearDown boom' % idx)
+          if fault == 'td_slow':
+            # a tearDown with a little work to do: 50 scheduler yields, far
+            # below any time-out, but enough for a premature kill to land
+            try:
+              for _ in range(50):
+                time.sleep(0)
+              log.add('plug_td_done', idx, id(self))
+            except BaseException:
+              log.add('plug_td_killed', idx, id(self), time.monotonic() - t0)
+              raise
           if fault == 'td_hang':
             log.add('plug_td_hang', idx)
             while True:
@@ -253,8 +265,10 @@ class Built:
     body.__name__ = pid
     body.__qualname__ = pid
     ph = pd.PhaseDescriptor.wrap_or_copy(body)
-    for idx in plug_idx:
-      ph = H.plugs.plug(**{'plug%d' % idx: self.plug_class(idx)})(ph)
+    for ent in plug_idx:
+      # an int i asks for plug class i as argument 'plug<i>'; a string such as
+      # '0b' asks for the same class 0 under a second name 'plug0b'
+      ph = H.plugs.plug(**{'plug%s' % ent: self.plug_class(plug_index(ent))})(ph)
     if 'm' in beh:
       ph = H.measures(H.Measurement('m_' + pid).in_range(
           0, 10, marginal_maximum=9))(ph)
@@ -292,6 +306,25 @@ class Built:
                           is_internal=bool(e[2:] and e[2])) for e in _spec]
 
     return diag
+
+
+def settle(limit_s=2.0):
+  """Waits until no TestExecutor thread is alive any more, so that whatever
+  a finished run's executor thread still logs has been logged."""
+  t_end = time.monotonic() + limit_s
+  while time.monotonic() < t_end:
+    if not any(th.name.startswith('TestExecutorThread')
+               for th in threading.enumerate()):
+      return True
+    time.sleep(0.0005)
+  return False
+
+
+def plug_index(ent):
+  if isinstance(ent, int):
+    return ent
+  import re
+  return int(re.match(r'\d+', str(ent)).group(0))
 
 
 def res_name(outcome):
